@@ -372,15 +372,15 @@ class C16(Check):
 
     def budget(self, tier):
         q = tier == 'quick'
-        return {'scrambled': 40 if q else 1200,
-                'latest': 20 if q else 600,
-                'conventions': 24 if q else 600,
-                'override': 20 if q else 500,
-                'path': 12 if q else 300,
-                'sdss': 12 if q else 300,
-                'allfibres': 12 if q else 240,
-                'append': 1500 if q else 60000,
-                'append_chain': 300 if q else 10000}
+        return {'scrambled': 40 if q else 800,
+                'latest': 20 if q else 400,
+                'conventions': 24 if q else 400,
+                'override': 20 if q else 320,
+                'path': 12 if q else 200,
+                'sdss': 12 if q else 200,
+                'allfibres': 12 if q else 160,
+                'append': 1500 if q else 30000,
+                'append_chain': 300 if q else 6000}
 
     # -------------------------------------------------------------------- gen
     def gen(self, cls, rng, i):
